@@ -13,6 +13,7 @@ package main
 import (
 	"bufio"
 	"crypto/sha256"
+	"encoding/hex"
 	"encoding/json"
 	"fmt"
 	"math/big"
@@ -136,6 +137,9 @@ type signGen interface {
 	AddWitnessSign(id groupsig.ID, sig groupsig.Signature) (bool, bool)
 	GetGroupSign() groupsig.Signature
 }
+
+// paramMu serialises the ops that set model.Param for one call (membercount).
+var paramMu sync.Mutex
 
 // lgenNew is set by lgen_hook.go when the harness is built with tag c13lgen.
 var lgenNew func(k int) signGen
@@ -459,6 +463,55 @@ func execOp(line string) string {
 			res += " RESULT-CHANGED-LATER"
 		}
 		return res
+	case "idkey":
+		// idkey <id>: the map key of an id and what SetHexString reads back from it
+		if len(w) != 2 {
+			return "bad-op"
+		}
+		x, ok := tokNat(w[1])
+		if !ok {
+			return "bad-op"
+		}
+		key := idOf(x).GetHexString()
+		var back groupsig.ID
+		if err := back.SetHexString(key); err != nil {
+			return key + " arg-failed"
+		}
+		return key + " ok " + natTok(back.GetBigInt())
+	case "idparse":
+		if len(w) != 2 {
+			return "bad-op"
+		}
+		sb, err := hx.UnHex(w[1])
+		if err != nil {
+			return "bad-op"
+		}
+		var id groupsig.ID
+		if err := id.SetHexString(string(sb)); err != nil {
+			return "arg-failed"
+		}
+		return "ok " + natTok(id.GetBigInt())
+	case "membercount":
+		// membercount <min> <max> <ratio> <avail>: the real CreateGroupMemberCount / IsGroupMemberCountLegal
+		// under these parameters (model.Param is set for the call and restored)
+		if len(w) != 5 {
+			return "bad-op"
+		}
+		var v [4]int
+		for i := 0; i < 4; i++ {
+			n, ok := tokDec(w[1+i])
+			if !ok {
+				return "bad-op"
+			}
+			v[i] = n
+		}
+		paramMu.Lock()
+		defer paramMu.Unlock()
+		saved := model.Param
+		defer func() { model.Param = saved }()
+		model.Param.GroupMemberMin, model.Param.GroupMemberMax, model.Param.CandidatesMinRatio = v[0], v[1], v[2]
+		c := model.Param.CreateGroupMemberCount(v[3])
+		return strconv.Itoa(c) + " " + strconv.FormatBool(model.Param.IsGroupMemberCountLegal(c))
 	case "deliver":
 		// deliver <n> <id> <share> <pub> ... : one member's groupNodeInfo fed with this history
 		if len(w) < 2 || (len(w)-2)%3 != 0 {
@@ -957,7 +1010,104 @@ func (g *gen) emit(line string) string {
 	if !strings.HasPrefix(line, "groupk ") {
 		g.emitted = append(g.emitted, line)
 	}
-	return g.out.Do(line, func() string { return execOp(line) })
+	ans := g.out.Do(line, func() string { return execOp(line) })
+	g.dist["res."+classify(line, ans)]++
+	return ans
+}
+
+// classify names the branch of the real code an op reached (for the input-distribution report).
+func classify(line, ans string) string {
+	kind := line
+	if i := strings.IndexByte(line, ' '); i >= 0 {
+		kind = line[:i]
+	}
+	f := strings.Fields(ans)
+	has := func(sub string) bool { return strings.Contains(ans, sub) }
+	switch {
+	case strings.HasPrefix(ans, "PANIC"):
+		return kind + ":panic"
+	case ans == "bad-op" || ans == "dup-ids" || ans == "nil" || ans == "short" || ans == "arg-failed":
+		return kind + ":" + ans
+	}
+	switch kind {
+	case "recover":
+		w := strings.Fields(line)
+		k, _ := strconv.Atoi(w[1])
+		n := (len(w) - 3) / 2
+		c := "n=k"
+		if n > k {
+			c = "n>k(random-subset)"
+		}
+		if len(f) > 1 && f[1] == "-" {
+			c += ",nil-result"
+		}
+		if len(f) > 1 && strings.Trim(f[1], "0") == "" {
+			c += ",infinity"
+		}
+		return kind + ":" + c
+	case "gen", "lgen":
+		c := "never-generated"
+		if has("11") {
+			c = "generated"
+		}
+		if has("00") {
+			c += "+dup-sender"
+		}
+		if has("01") {
+			c += "+late"
+		}
+		return kind + ":" + c
+	case "deliver":
+		c := "incomplete"
+		if len(f) > 0 {
+			if strings.Contains(","+f[0]+",", ",1,") {
+				c = "completed"
+			} else if strings.HasSuffix(f[0], "-1") && has("nil") == false && !strings.Contains(f[0], "1,") {
+				c = "incomplete-or-refused"
+			}
+			if strings.Contains(f[0], "-1") {
+				c += "+refused"
+			}
+		}
+		return kind + ":" + c
+	case "g1unm":
+		return kind + ":" + f[0]
+	case "g1add", "g1mul", "g2add", "g2mul":
+		if strings.Trim(ans, "0") == "" {
+			return kind + ":infinity"
+		}
+		return kind + ":point"
+	case "dkg":
+		if has("hm-mismatch") || has("dkg-") {
+			return kind + ":" + f[0]
+		}
+		return kind + ":ok"
+	case "membercount":
+		w := strings.Fields(line)
+		mn, _ := strconv.Atoi(w[1])
+		mx, _ := strconv.Atoi(w[2])
+		rt, _ := strconv.Atoi(w[3])
+		av, _ := strconv.Atoi(w[4])
+		switch q := av / rt; {
+		case q > mx:
+			return kind + ":capped-at-max"
+		case q < mn:
+			return kind + ":below-min-no-group"
+		default:
+			return kind + ":exact"
+		}
+	case "groupk":
+		return kind + ":value"
+	case "idkey", "idparse":
+		if len(f) >= 2 {
+			return kind + ":" + f[len(f)-2]
+		}
+		return kind + ":" + f[0]
+	}
+	if len(f) > 0 && f[0] == "ok" {
+		return kind + ":ok"
+	}
+	return kind + ":value"
 }
 
 func (g *gen) bigBytes(n int) *big.Int { return new(big.Int).SetBytes(g.r.Bytes(n)) }
@@ -1163,8 +1313,12 @@ func (g *gen) genGroupK(exh, rnd int) {
 			n = int64(g.r.Intn(1<<20))*100 + int64(g.r.Intn(5)) - 2
 		case 1: // just below the exactness limit 2^53/51
 			n = (int64(1)<<53)/51 - int64(g.r.Intn(1000))
-		case 2: // above it (unmodelled on the Lean side)
-			n = (int64(1)<<53)/51 + 1 + int64(g.r.Intn(1<<30))
+		case 2: // above it (unmodelled on the Lean side): rarely
+			if g.r.Chance(1, 8) {
+				n = (int64(1)<<53)/51 + 1 + int64(g.r.Intn(1<<30))
+			} else {
+				n = int64(g.r.Intn(64)) * 100 / 51
+			}
 		case 3:
 			n = int64(g.r.U64() >> uint(12+g.r.Intn(40)))
 		default:
@@ -1357,12 +1511,16 @@ func (g *gen) genDeliver(cnt int) {
 			hist = append(hist, p)
 			sent = append(sent, p)
 		}
+		if g.r.Chance(1, 4) && len(hist) > 1 { // the history stops before completion
+			hist = hist[:1+g.r.Intn(len(hist)-1)]
+			kind = "stops-early"
+		}
 		switch g.r.Intn(4) {
 		case 0: // late re-delivery and a late stranger
 			hist = append(hist, sent[g.r.Intn(len(sent))], fresh(n+1))
 			kind += "+late"
 		case 1: // shares that sum to 0 mod r: aggregateKeys reports failure
-			if n >= 2 && kind == "plain" {
+			if n >= 2 && kind == "plain" && len(hist) == n {
 				tot := new(big.Int)
 				for _, p := range hist[:len(hist)-1] {
 					v, _ := tokNat(p.sh)
@@ -1382,6 +1540,53 @@ func (g *gen) genDeliver(cnt int) {
 	}
 	g.emit("deliver 0")
 	g.emit("deliver 2")
+}
+
+// id <-> map key round trip, SetHexString on arbitrary strings, group size selection
+func (g *gen) genIdAndParam(cnt int) {
+	for i := 0; i < cnt; i++ {
+		var x *big.Int
+		switch g.r.Intn(6) {
+		case 0:
+			x = g.bigBytes(32 - g.r.Pick(1, 2, 3, 8, 31)) // leading zero bytes
+		case 1:
+			x = g.scalar()
+		case 2:
+			x = new(big.Int).Lsh(big.NewInt(1), uint(8*g.r.Intn(32))) // 0x0100..00 patterns
+		case 3:
+			x = new(big.Int).Add(two256, big.NewInt(int64(g.r.Intn(3)))) // too large: Serialize panics
+		default:
+			x = g.bigBytes(32)
+		}
+		g.count("idkey")
+		g.emit("idkey " + natTok(x))
+		var str string
+		switch g.r.Intn(7) {
+		case 0:
+			str = "0x" + strings.ToUpper(hex.EncodeToString(g.r.Bytes(1+g.r.Intn(32))))
+		case 1:
+			str = hex.EncodeToString(g.r.Bytes(4)) // no prefix
+		case 2:
+			str = "0X" + hex.EncodeToString(g.r.Bytes(4)) // wrong-case prefix
+		case 3:
+			str = []string{"", "0", "0x", "x0ab", "0x0", "0x00000"}[g.r.Intn(6)]
+		case 4:
+			str = "0x" + hex.EncodeToString(g.r.Bytes(40)) // more than 32 bytes
+		default:
+			str = "0x" + hex.EncodeToString(g.r.Bytes(1+g.r.Intn(32)))
+		}
+		g.count("idparse")
+		g.emit("idparse " + hx.Hex([]byte(str)))
+		mn := g.r.Pick(0, 1, 3, 5, 5)
+		mx := mn + g.r.Pick(0, 1, 5, 5, 95)
+		ratio := g.r.Pick(1, 1, 1, 2, 3, 1, 2, 1, 1, 3, 2, 0)
+		avail := g.r.Pick(0, 1, mn-1, mn, mn*ratio-1, mn*ratio, mx*ratio, mx*ratio+1, mx*ratio+ratio, 1000, 1<<40)
+		if avail < 0 {
+			avail = 0
+		}
+		g.count("membercount")
+		g.emit(fmt.Sprintf("membercount %d %d %d %d", mn, mx, ratio, avail))
+	}
 }
 
 // hash-to-G1 of the code against the reference, on boundary messages
@@ -2165,7 +2370,7 @@ func main() {
 	}
 	g.genShare(150 * scale)
 	g.genAgg(60 * scale)
-	g.genGroupK(300, 300*scale)
+	g.genGroupK(130, 60*scale)
 	g.genPerm(80 * scale)
 	g.genLagrange(25 * scale)
 	g.genG1(60 * scale)
@@ -2174,6 +2379,7 @@ func main() {
 	g.genG2(12 * scale)
 	g.genHash(20 * scale)
 	g.genDeliver(30 * scale)
+	g.genIdAndParam(40 * scale)
 	min, max := model.Param.GroupMemberMin, model.Param.GroupMemberMax
 	if thorough {
 		var sizes []int
